@@ -150,6 +150,8 @@ mkunaryexpr(enum tokenkind op, struct expr *base)
 			type = base->type->base;
 			expr = base->base;
 			expr->type = type;
+			/* for an array the qualifiers of the element are those of the pointer it decayed to */
+			expr->qual = base->type->qual;
 		} else {
 			expr = mkexpr(EXPRUNARY, base->type->base, base);
 			expr->qual = base->type->qual;
